@@ -242,6 +242,17 @@ def gen_cli_unit(rng, nblocks, names):
             if u:
                 src.append(ind + u)
 
+    def ctrl(base):
+        """controlling expression, half of the time with a declaration inside it (its scope is the statement: the caller has pushed)"""
+        if rng.random() < 0.5:
+            return base
+        n = rng.choice(names)
+        if n in st[0]['d'] or n in st[0]['t']:
+            return base
+        if rng.random() < 0.6:
+            return '%s && sizeof(%s)' % (base, ident_decl_text(n))
+        return '%s && sizeof(%s)' % (base, tag_decl_text(n))
+
     def substmt(ind, depth):
         """a substatement of a selection/iteration statement: a block of its own"""
         push()
@@ -273,16 +284,17 @@ def gen_cli_unit(rng, nblocks, names):
             block(ind, depth + 1)
         elif r < 0.80:
             push()
-            src.append(ind + 'if (%s)' % rng.choice(['1', '0', 'chk_g']))
+            src.append(ind + 'if (%s)' % ctrl(rng.choice(['1', '0', 'chk_g'])))
             substmt(ind, depth)
             if rng.random() < 0.7:
                 src.append(ind + 'else')
                 substmt(ind, depth)
             pop()
         elif r < 0.86:
-            push(); src.append(ind + 'while (chk_g)'); substmt(ind, depth); pop()
+            push(); src.append(ind + 'while (%s)' % ctrl('chk_g')); substmt(ind, depth); pop()
         elif r < 0.91:
-            push(); src.append(ind + 'do'); substmt(ind, depth); src.append(ind + 'while (0);'); pop()
+            # the controlling expression of do-while comes AFTER the body but belongs to the same statement scope
+            push(); src.append(ind + 'do'); substmt(ind, depth); src.append(ind + 'while (%s);' % ctrl('0')); pop()
         elif r < 0.96:
             push()
             n = rng.choice(names)
@@ -291,7 +303,7 @@ def gen_cli_unit(rng, nblocks, names):
             substmt(ind, depth)
             pop()
         else:
-            push(); src.append(ind + 'switch (chk_g)'); substmt(ind, depth); pop()
+            push(); src.append(ind + 'switch (%s)' % ctrl('chk_g')); substmt(ind, depth); pop()
 
     # file scope
     for n in rng.sample(names, min(len(names), 6)):
@@ -348,6 +360,16 @@ EXTRA_CLI = [
     ('enum { l = 2 }; int f(void) { goto l; l: ; static int chk_a = l; { enum { l = 3 }; static int chk_b = l; goto l; } return 0; }\n',
      [('chk_a', 2), ('chk_b', 3)]),
     ('char *a = "x", *b = "x"; char *c = "y";\n', None),
+    # a definition whose declarator contains several parameter lists: the body sees the parameters of the function being
+    # defined, not those of the returned function type (6.2.1p4, 6.9.1p7)
+    ('char sel[7]; char bias[9]; int id(int x) { return x; }\n'
+     'int (*pick(int sel, long bias))(int) { static int chk_a = sizeof(sel); static int chk_b = sizeof(bias); return id; }\n'
+     'int (*(*pick2(short sel))(int bias))(int) { static int chk_c = sizeof(sel); static int chk_d = sizeof(bias); return 0; }\n',
+     [('chk_a', 4), ('chk_b', 8), ('chk_c', 2), ('chk_d', 9)]),
+    # block-scope extern / function declarations find the visible file-scope entity through the intermediate scopes (6.2.2p4)
+    ('static int counter = 5; static int helper(int x) { return x; }\n'
+     'int f(int p) { extern int counter; int helper(int); { extern int counter; { int helper(int); return helper(counter + p); } } }\nstatic int chk_a = sizeof(counter);\n',
+     [('chk_a', 4)]),
 ]
 
 
